@@ -441,3 +441,99 @@ fn failed_block_addition_keeps_the_pool_consistent() {
         Err(_) => panic!("scenario did not finish within 120 s"),
     }
 }
+
+/// C05 (last sentence) / C03: a block that arrives before its parent neither moves the tip nor disturbs the chain index,
+/// the on-chain flags of the stored blocks, the spendable set or the wallet — whatever height it claims (below, at or
+/// above the tip).
+#[test]
+#[serial_test::serial]
+fn block_before_its_parent_changes_nothing() {
+    let (tx_done, rx_done) = std::sync::mpsc::channel::<Option<String>>();
+    std::thread::spawn(move || {
+        let rt = tokio::runtime::Builder::new_current_thread().enable_all().build().unwrap();
+        rt.block_on(async move {
+            let mut found: Vec<String> = vec![];
+            for claimed_id in 2..=8u64 {
+                let mut t = TestManager::default();
+                t.initialize(100, 200_000_000_000_000).await;
+                let (b1, ts) = { let bc = t.blockchain_lock.read().await; let b = bc.get_latest_block().unwrap(); (b.hash, b.timestamp) };
+                let sk = { t.wallet_lock.read().await.private_key };
+                let mut prev = b1;
+                let mut hashes = vec![b1];
+                for k in 1..=5u64 { let mut b = t.create_block(prev, ts + 120000 * k, 1, 1000, 0, k % 2 == 1).await; b.generate().unwrap(); prev = b.hash; hashes.push(b.hash); t.add_block(b).await; }
+                assert_eq!(t.blockchain_lock.read().await.get_latest_block_id(), 6, "setup: six blocks on the chain");
+                // a block whose parent this node has never seen
+                let mut x = t.create_block(hashes[(claimed_id as usize - 2).min(5)], ts + 120000 * 9, 1, 1000, 0, false).await;
+                x.id = claimed_id;
+                x.previous_block_hash = [0xEE; 32];
+                x.sign(&sk);
+                x.generate().unwrap();
+                let before = ledger_snapshot(&t, 9).await;
+                let _ = t.add_block(x).await;
+                let mut after = ledger_snapshot(&t, 9).await;
+                after.stored = before.stored;   // whether the block is kept for later is not compared
+                let flags_after: Vec<_> = after.flags.iter().filter(|(h, _)| before.flags.iter().any(|(h2, _)| h2 == h)).cloned().collect();
+                after.flags = flags_after;
+                after.wallet = before.wallet;   // building the block took slips out of the test wallet: not the node's doing
+                if after != before {
+                    let what = if after.tip != before.tip { "tip" } else if after.ring_tip != before.ring_tip { "index tip" } else if after.chain != before.chain { "by-height index" }
+                        else if after.flags != before.flags { "on-chain flags" } else { "spendable outputs" };
+                    found.push(format!("chain of 6 blocks; a block claiming height {} whose parent is unknown was delivered: the {} changed — tip {:?}→{:?}, index tip {:?}→{:?}, heights with an on-chain block {:?}→{:?}, stored blocks flagged on-chain {}→{}",
+                        claimed_id, what, before.tip.0, after.tip.0, before.ring_tip.0, after.ring_tip.0,
+                        before.chain.iter().enumerate().filter(|(_, h)| h.map(|x| x != [0u8; 32]).unwrap_or(false)).map(|(i, _)| i + 1).collect::<Vec<_>>(),
+                        after.chain.iter().enumerate().filter(|(_, h)| h.map(|x| x != [0u8; 32]).unwrap_or(false)).map(|(i, _)| i + 1).collect::<Vec<_>>(),
+                        before.flags.iter().filter(|f| f.1).count(), after.flags.iter().filter(|f| f.1).count()));
+                }
+            }
+            let _ = tx_done.send(if found.is_empty() { None } else { Some(found.join(" || ")) });
+        });
+    });
+    match rx_done.recv_timeout(std::time::Duration::from_secs(180)) {
+        Ok(None) => {}
+        Ok(Some(w)) => witness(w),
+        Err(_) => panic!("scenario did not finish within 180 s"),
+    }
+}
+
+/// C05 (last sentence), the remaining case — recorded finding: a node whose chain starts above height 1 (it joined at
+/// block 3) receives a parent-less block claiming a height below its first block: the whole chain is taken off the index.
+#[test]
+#[serial_test::serial]
+fn block_below_the_first_known_block_changes_nothing() {
+    let (tx_done, rx_done) = std::sync::mpsc::channel::<Option<String>>();
+    std::thread::spawn(move || {
+        let rt = tokio::runtime::Builder::new_current_thread().enable_all().build().unwrap();
+        rt.block_on(async move {
+            let mut t = TestManager::default();
+            t.initialize(100, 200_000_000_000_000).await;
+            let (b1, ts) = { let bc = t.blockchain_lock.read().await; let b = bc.get_latest_block().unwrap(); (b.hash, b.timestamp) };
+            let sk = { t.wallet_lock.read().await.private_key };
+            let mut prev = b1;
+            let mut blocks = vec![];
+            for k in 1..=5u64 { let mut b = t.create_block(prev, ts + 120000 * k, 1, 1000, 0, k % 2 == 1).await; b.generate().unwrap(); prev = b.hash; blocks.push(b.clone()); t.add_block(b).await; }
+            // a second node that joins at block 3
+            let mut t2 = TestManager::default();
+            for b in blocks.iter().skip(1) { let _ = t2.add_block(b.clone()).await; }
+            assert_eq!(t2.blockchain_lock.read().await.get_latest_block_id(), 6, "setup: the second node follows the chain from block 3 to block 6");
+            let mut x = t.create_block(b1, ts + 120000 * 9, 1, 1000, 0, false).await;
+            x.id = 2; x.previous_block_hash = [0xEE; 32]; x.sign(&sk); x.generate().unwrap();
+            let before = ledger_snapshot(&t2, 9).await;
+            let _ = t2.add_block(x).await;
+            let after = ledger_snapshot(&t2, 9).await;
+            if after.tip != before.tip || after.chain != before.chain {
+                let _ = tx_done.send(Some(format!("node following blocks 3..6; a block claiming height 2 whose parent is unknown was delivered: tip {:?}→{:?}, heights with an on-chain block {:?}→{:?}, spendable outputs {}→{}",
+                    before.tip.0, after.tip.0,
+                    before.chain.iter().enumerate().filter(|(_, h)| h.is_some()).map(|(i, _)| i + 1).collect::<Vec<_>>(),
+                    after.chain.iter().enumerate().filter(|(_, h)| h.is_some()).map(|(i, _)| i + 1).collect::<Vec<_>>(),
+                    before.spendable.len(), after.spendable.len())));
+                return;
+            }
+            let _ = tx_done.send(None);
+        });
+    });
+    match rx_done.recv_timeout(std::time::Duration::from_secs(180)) {
+        Ok(None) => {}
+        Ok(Some(w)) => witness(w),
+        Err(_) => panic!("scenario did not finish within 180 s"),
+    }
+}
